@@ -240,19 +240,24 @@ func (ex *Exec) indexAddr(fr *Frame, x *ssa.IndexAddr) Value {
 		}
 	case *types.Slice:
 		ex.addPanic(fr, Not(BVCmp("bvult", it, ex.sliceLen(base))), "index-out-of-range", x.Pos())
+		if k, ok := fr.sparseIdx[x.Index]; ok {
+			// range driver over a sparse slice: this iteration is physical cell k
+			for _, a := range base.Alts {
+				st := a.Tgt.(SliceT)
+				if k < st.phys() {
+					alts = addAlt(alts, a.C, AddrT{Obj: st.Arr, P: []int{st.Off + k}})
+				}
+			}
+			break
+		}
 		for _, a := range base.Alts {
 			st, ok := a.Tgt.(SliceT)
 			if !ok {
 				panic(unsupported("indexaddr on %T", a.Tgt))
 			}
-			max := st.Cap
-			if ub, ok := termUpper(st.Len); ok && ub < max {
-				max = ub
-			}
-			for j := 0; j < max; j++ {
-				c := And(a.C, Eq(it, BVC(int64(j), 64)))
-				alts = addAlt(alts, c, AddrT{Obj: st.Arr, P: []int{st.Off + j}})
-			}
+			ex.cellsOf(st, it, func(c *Term, cell int) {
+				alts = addAlt(alts, And(a.C, c), AddrT{Obj: st.Arr, P: []int{cell}})
+			})
 		}
 	default:
 		panic(unsupported("indexaddr on %s", x.X.Type()))
@@ -313,17 +318,6 @@ func (ex *Exec) makeSlice(fr *Frame, x *ssa.MakeSlice) Value {
 		// large concrete buffers (scanner buffers etc.) are never element-wise modelled
 		n = 0
 	}
-	if b, ok := et.Underlying().(*types.Basic); ok && b.Kind() == types.Uint8 {
-		// []byte in byte mode
-		bs := BStrV{Len: lt, B: make([]*Term, n)}
-		for i := range bs.B {
-			bs.B[i] = BVC(0, 8)
-		}
-		o := ex.newObject("makeslice-bytes", nil, bs)
-		_ = o
-		arr := ex.newArray("makeslice", et, n)
-		return Ref1(SliceT{Arr: arr, Off: 0, Len: lt, Cap: n})
-	}
 	arr := ex.newArray("makeslice", et, n)
 	return Ref1(SliceT{Arr: arr, Off: 0, Len: lt, Cap: n})
 }
@@ -373,6 +367,16 @@ func (ex *Exec) sliceOp(fr *Frame, x *ssa.Slice) Value {
 		}
 		r := base.(RefV)
 		var alts []Alt
+		if isSparse(r) {
+			if hi != nil && hi.IsConst() && hi.SVal() == 0 && (lo == nil || (lo.IsConst() && lo.SVal() == 0)) {
+				for _, a := range r.Alts {
+					st := a.Tgt.(SliceT)
+					alts = addAlt(alts, a.C, SliceT{Arr: st.Arr, Off: st.Off, Len: BVC(0, 64), Cap: st.Cap})
+				}
+				return RefV{Alts: alts}
+			}
+			r = ex.densify(r, x.X.Type().Underlying().(*types.Slice).Elem())
+		}
 		for _, a := range r.Alts {
 			st, ok := a.Tgt.(SliceT)
 			if !ok {
